@@ -66,11 +66,6 @@ theorem C05_roundtrip_same_data (c : Cov) (h : c.WF) : SameData (rtCov c) c := r
 
 /-! ### iterating the round trip -/
 
-/-- what the writer can write and the reader returns unchanged as a file name: every record is in
-the writer's domain and every path is (as any Rust `String`) a fixed point of the name decoding -/
-def ReportOK (rs : List (Bytes × Cov)) : Prop :=
-  ∀ pc ∈ rs, WriterOK pc.1 pc.2 ∧ utf8Lossy pc.1 = pc.1
-
 /-- What the reader rebuilds is, list for list (order of the entries included), the record that was
 written, minus the branch lines that carry no branch at all (for which nothing is written). -/
 theorem C05_reimported_record (c : Cov) (h : c.WF) : rtCov c = dropEmpty c := rtCov_eq c h
